@@ -3,8 +3,9 @@
    HOLA's tree placement, chain routing and the orthogonal hub routing read every direction between two nodes
    through these two functions.  Directions are the enumerators of CompassDir as integers (EAST 0, SOUTH 1,
    WEST 2, NORTH 3, SE 4, SW 5, NW 6, NE 7); y grows downwards (SOUTH = increasing y).
-   NOT translated: the `throw std::runtime_error` of compassDirection for coincident points - every statement
-   about compassDirection below carries the hypothesis that the two points differ. *)
+   The `throw std::runtime_error` of compassDirection for coincident points is translated as a recorded
+   precondition (compassDirection_asserts_ok, path-sensitive: true iff the call returns); it is proved equivalent
+   to `distinct`, the hypothesis every statement about compassDirection below carries. *)
 From Coq Require Import ZArith QArith Lqa Lia.
 From Adapt Require Import Num.Qaux Gen.Compass.
 Local Open Scope Q_scope.
@@ -91,6 +92,16 @@ Proof.
   unfold distinct. cbv zeta. unf. intros H.
   cases; repeat split; intros; try discriminate; try lia; auto;
     try (exfalso; try (destruct H as [H|H]; apply H; lra); lra).
+Qed.
+
+(* the contract of the code: compassDirection returns (does not throw) exactly on distinct points *)
+Theorem compassDirection_returns_iff_distinct p0 p1 :
+  compassDirection_asserts_ok p0 p1 = true <-> distinct p0 p1.
+Proof.
+  unfold compassDirection_asserts_ok, distinct, ddx, ddy. unfold inject_Z.
+  set (dx := px p1 - px p0). set (dy := py p1 - py p0).
+  destruct (Qeqb dx 0) eqn:Ex, (Qeqb dy 0) eqn:Ey; cbn [andb negb]; qb2p;
+    try (destruct (Qgtb dx 0)); split; intros H; try discriminate; try reflexivity; try tauto.
 Qed.
 
 Example compass_nonvacuous :
